@@ -45,6 +45,7 @@ let () =
            | _ -> failwith ("bad script line: " ^ line) in
          pr ("op " ^ line);
          if not (guard_split !st o) then pr "g split";
+         if not (guard_split_root !st o) then pr "g splitroot";
          (match step fixed !st o with
           | Err e ->
             dead := true;
